@@ -30,7 +30,7 @@ class TranslateError(Exception):
 SCOPE_WORDS = re.compile(
     r"scopes\.|subscope|loop_scope|LEAVES_SCOPE|LEAVES_LOOP|current_loop_scopes|name_to_current_definition_nodes|"
     r"usage_to_definition_nodes|assignment_recorders|_UNINITIALIZED|get_combined_scope|combine_subscopes|"
-    r"_handle_loop_else|visit_try_except|visit_single_cm|_generic_visit_list"
+    r"_handle_loop_else|visit_try_except|visit_single_cm|_generic_visit_list|uniq_chain"
 )
 
 SCOPE_FNS = [
